@@ -29,7 +29,7 @@ KNOWN_PATH = os.path.join(core.VERIF, "known", "c15_findings.json")
 # malloc_context_size=2 halves the run time under ASan (shorter allocation stacks in reports, same detection)
 ASAN_ENV = {"ASAN_OPTIONS": "halt_on_error=1:detect_leaks=0:exitcode=66:malloc_context_size=2"}
 # ASan runs ~25x slower than native here (a fresh context per job): a fixed share of every stream is replayed under it
-ASAN_SHARE = {"main": 1500, "reentrant": 2200, "matrix": 300}
+ASAN_SHARE = {"main": 900, "reentrant": 1400, "matrix": 200}
 GEN_PROCS = 6
 
 
@@ -366,8 +366,8 @@ def run(tier, seed):
     if not (feats["f16"] and feats["atomics"] and feats["sab"] and feats["resize"]):
         raise core.NoVerdict("engine build lacks Float16Array / Atomics / SharedArrayBuffer / resize: %r" % (feats,))
     if thorough:
-        plan = [("main", 24000), ("reentrant", 12000), ("matrix", 4000)]
-        batch = 8000
+        plan = [("main", 18000), ("reentrant", 9000), ("matrix", 3000)]
+        batch = 6000
     else:
         plan = [("main", 3200), ("reentrant", 900), ("matrix", 400)]
         batch = 6000
